@@ -52,7 +52,7 @@ def env():
         cls = type(name, (SQLObject,), {'_connection': conn, 'v': IntCol(), 'w': IntCol()})
         cls.createTable()
         for i in range(n):
-            cls(v=i, w=(i * 5) % 7)
+            cls(id=i, v=i, w=(i * 5) % 7)      # explicit keys, 0 included
         classes[n] = cls
         # a class with a declared default order, and a plain subclass that only inherits it
         dname = sqlo.uniq('C10D%d_' % n)
@@ -62,20 +62,31 @@ def env():
         for c in (dcls, scls):
             c.createTable()
             for i in range(n):
-                c(v=i, w=(i * 5) % 7)
+                c(id=i, v=i, w=(i * 5) % 7)
         classes[('dflt', n)] = dcls
         classes[('dfltsub', n)] = scls
+        # an inheritance hierarchy selected through its root; children prefetched in batches of 2 rows
+        from sqlobject.inheritance import InheritableSQLObject
+        pcls = type(sqlo.uniq('C10P%d_' % n), (InheritableSQLObject,), {'_connection': conn, 'v': IntCol(), 'w': IntCol()})
+        ccls = type(sqlo.uniq('C10K%d_' % n), (pcls,), {'_connection': conn, 'z': IntCol(default=0)})
+        pcls.createTable()
+        ccls.createTable()
+        for i in range(n):
+            (ccls if i % 2 == 0 else pcls)(v=i, w=(i * 5) % 7)
+        classes[('inh', n)] = pcls
+    from sqlobject.inheritance.iteration import InheritableIteration
+    InheritableIteration.defaultArraySize = 2       # several fetchmany() batches with a handful of rows
     _env.update(conn=conn, classes=classes)
     return _env
 
 
-VARIANTS = ['v', '-v', 'rev', 'w', 'none', 'wrev', 'wdesc', 'dflt', 'dfltsub']
+VARIANTS = ['v', '-v', 'rev', 'w', 'none', 'wrev', 'wdesc', 'dflt', 'dfltsub', 'wonly', 'wonlyrev', 'inh']
 
 
 def requested_order(n, variant):
     """the v values of the rows in the order the select asks for (None: no order requested)"""
     vs = list(range(n))
-    key = {'v': lambda i: i, '-v': lambda i: -i, 'rev': lambda i: -i, 'dflt': lambda i: -i, 'dfltsub': lambda i: -i,
+    key = {'v': lambda i: i, 'inh': lambda i: i, '-v': lambda i: -i, 'rev': lambda i: -i, 'dflt': lambda i: -i, 'dfltsub': lambda i: -i,
            'w': lambda i: ((i * 5) % 7, i), 'wrev': lambda i: (-((i * 5) % 7), -i),
            'wdesc': lambda i: (-((i * 5) % 7), i)}.get(variant)
     return None if key is None else sorted(vs, key=key)
@@ -84,6 +95,8 @@ def requested_order(n, variant):
 def base_select(n, variant):
     if variant in ('dflt', 'dfltsub'):
         return env()['classes'][(variant, n)].select()
+    if variant == 'inh':
+        return env()['classes'][('inh', n)].select(orderBy='v')
     cls = env()['classes'][n]
     if variant == 'v':
         return cls.select(orderBy='v')
@@ -97,6 +110,10 @@ def base_select(n, variant):
         return cls.select(orderBy=['w', 'v']).reversed()
     if variant == 'wdesc':
         return cls.select(orderBy=('-w', 'v'))
+    if variant == 'wonly':
+        return cls.select(orderBy='w')            # ties: several rows share a sort key
+    if variant == 'wonlyrev':
+        return cls.select(orderBy='w').reversed()
     return cls.select()
 
 
@@ -314,6 +331,25 @@ def gen_cases(ctx):
 
 def run(ctx):
     env()
+    broken = set()
+    for n in range(0, 9):
+        for variant in VARIANTS:
+            want = requested_order(n, variant)
+            objs = list(base_select(n, variant))
+            if any(o is None for o in objs) or len(objs) != n:
+                broken.add((n, variant))
+                ctx.case(('full', n, variant), nontrivial=True, kind='full-list-rows')
+                ctx.oracle_fail('C10:full-list %s %d' % (variant, n),
+                                'the unsliced select (order %s) over a table of %d rows with keys 0..%d yields %s'
+                                % (variant, n, n - 1, [None if o is None else o.id for o in objs]),
+                                {'n': n, 'full_only': True, 'order': variant})
+                continue
+            got = [o.v for o in objs]
+            ctx.case(('order', n, variant), nontrivial=n > 1, kind='full-list-order')
+            if want is not None and got != want:
+                ctx.oracle_fail('C10:order %s %d' % (variant, n),
+                                'the unsliced select (order %s, %d rows) yields v = %s, the requested order is %s'
+                                % (variant, n, got, want), {'n': n, 'order_only': True, 'order': variant})
     cases = gen_cases(ctx)
     dialects = ['sqlite', 'mysql', 'postgres']
     # model answers for all cases and dialects in one driver call
@@ -328,6 +364,8 @@ def run(ctx):
     outs = ctx.model(lines)
     for sidx, (n, sops) in enumerate(sessions):
         variant = VARIANTS[sidx % len(VARIANTS)]
+        if (n, variant) in broken:
+            continue
         got, want = run_session(n, sops, variant)
         desc = {'n': n, 'session': sops, 'order': variant}
         ctx.case(('session', n, tuple(sops)), nontrivial=True, kind='session-%d' % len(sops),
@@ -340,17 +378,11 @@ def run(ctx):
             ctx.compare('session on the heap of selects: translated clone/__init__/__getitem__ = SelectResults on SQLite',
                         desc, outs[nchain + sidx], got)
     k = 0
-    for n in range(0, 9):
-        for variant in VARIANTS:
-            want = requested_order(n, variant)
-            got = [o.v for o in base_select(n, variant)]
-            ctx.case(('order', n, variant), nontrivial=n > 1, kind='full-list-order')
-            if want is not None and got != want:
-                ctx.oracle_fail('C10:order %s %d' % (variant, n),
-                                'the unsliced select (order %s, %d rows) yields v = %s, the requested order is %s'
-                                % (variant, n, got, want), {'n': n, 'order_only': True, 'order': variant})
     for idx, (n, ops, ix) in enumerate(cases):
         variant = VARIANTS[idx % len(VARIANTS)]
+        if (n, variant) in broken:
+            k += len(dialects)
+            continue
         res, sel, full = run_impl(n, ops, ix, variant)
         oracle = run_oracle(full, ops, ix)
         ident = all((not a) and b is None for a, b in ops)
@@ -382,6 +414,10 @@ def run(ctx):
 
 def replay(case):
     env()
+    if case.get('full_only'):
+        objs = list(base_select(case['n'], case['order']))
+        ok = len(objs) == case['n'] and not any(o is None for o in objs)
+        return ok, 'implementation: %s' % [None if o is None else o.id for o in objs]
     if case.get('order_only'):
         want = requested_order(case['n'], case['order'])
         got = [o.v for o in base_select(case['n'], case['order'])]
